@@ -37,6 +37,9 @@ type ACLCase struct {
 	// HTTP only: during these calls (0-based) the identity lookup fails - the local tailscaled is away.
 	// Nobody can be identified, so nothing is revealed or changed, whoever asked a moment ago.
 	WhoisDown []int `json:"whois_down,omitempty"`
+	// HTTP only: before these calls (0-based) the superuser asks for a listing and a stored value and
+	// hangs up while the answer is being written. What was not sent to HIM is sent to nobody.
+	Hangups []int `json:"hangups,omitempty"`
 }
 
 var c01Names = []string{"a", "b", "dev/a", "dev/b", "prod/a", "a*", "a\nb", "_internal/x", "", "a", "dev/a", "a ", " dev/a", "_internal", "prod/b|a", "b|a",
@@ -88,6 +91,9 @@ func genACLCase(rt *rapid.T) ACLCase {
 		c.Loopback = rapid.IntRange(0, 2).Draw(rt, "loopback") == 0
 		if rapid.IntRange(0, 2).Draw(rt, "whoisdown") == 0 {
 			c.WhoisDown = rapid.SliceOfN(rapid.IntRange(1, 24), 1, 4).Draw(rt, "whoisdownat")
+		}
+		if rapid.IntRange(0, 2).Draw(rt, "withhangups") == 0 {
+			c.Hangups = rapid.SliceOfN(rapid.IntRange(0, 24), 1, 5).Draw(rt, "hangups")
 		}
 	}
 	kinds := c01Kinds
@@ -222,6 +228,21 @@ func runC01(t *testing.T, c ACLCase) (*h.Violation, h.Info) {
 		}
 		low := callers[op.Caller]
 		ver := tr.Resolve(op)
+		if ht != nil && !sink.fail {
+			for _, hu := range c.Hangups {
+				if hu == i {
+					// the superuser's client goes away in the middle of two answers
+					ht.BreakAfter = 1 + (i*7)%23
+					ht.Do(su, dbx.Op{Kind: "list"}, 0)
+					for _, n := range tr.M.Names() {
+						ht.BreakAfter = 3 + (i*5)%31
+						ht.Do(su, dbx.Op{Kind: "get", Name: n}, 0)
+						break
+					}
+					info.Class("a-client-hung-up-while-its-answer-was-being-written")
+				}
+			}
+		}
 		if c.AuditDownFrom > 0 && i+1 >= c.AuditDownFrom {
 			sink.fail = true
 			info.Class("audit-device-down")
